@@ -16,6 +16,7 @@ import (
 	"testing"
 	"time"
 
+	"github.com/bluenviron/gohlslib/v2"
 	"github.com/bluenviron/gortsplib/v5/pkg/description"
 	"github.com/bluenviron/gortsplib/v5/pkg/format"
 	"pgregory.net/rapid"
@@ -25,6 +26,7 @@ import (
 	"github.com/bluenviron/mediamtx/internal/defs"
 	"github.com/bluenviron/mediamtx/internal/externalcmd"
 	"github.com/bluenviron/mediamtx/internal/logger"
+	"github.com/bluenviron/mediamtx/internal/protocols/hls"
 	"github.com/bluenviron/mediamtx/internal/protocols/moq/catalog"
 	"github.com/bluenviron/mediamtx/internal/protocols/moq/controlmessage"
 	"github.com/bluenviron/mediamtx/internal/protocols/moq/property"
@@ -211,6 +213,7 @@ type c35PM struct {
 	readStream *stream.Stream
 	readSub    *stream.SubStream
 	sinks      []c35Sink
+	stops      []func()
 	addedPub   atomic.Int32
 	addedRdr   atomic.Int32
 	removedPub atomic.Int32
@@ -284,9 +287,11 @@ func (pm *c35PM) AddPublisher(req defs.PathAddPublisherReq) (*defs.PathAddPublis
 		}
 	}
 	st.AddReader(r)
+	stopHLS := c35HLSConsumer(st)
 	pm.mu.Lock()
 	pm.streams = append(pm.streams, st)
 	pm.sinks = append(pm.sinks, c35Sink{st, r})
+	pm.stops = append(pm.stops, stopHLS)
 	pm.mu.Unlock()
 	pm.addedPub.Add(1)
 	return &defs.PathAddPublisherRes{Path: &c35Path{pm}, SubStream: sub}, nil
@@ -295,11 +300,41 @@ func (pm *c35PM) AddPublisher(req defs.PathAddPublisherReq) (*defs.PathAddPublis
 func (pm *c35PM) close() {
 	pm.mu.Lock()
 	defer pm.mu.Unlock()
+	for _, stop := range pm.stops {
+		stop()
+	}
 	for _, sk := range pm.sinks {
 		sk.st.RemoveReader(sk.r)
 	}
 	for _, st := range pm.streams {
 		st.Close()
+	}
+}
+
+// c35HLSConsumer attaches what servers/hls attaches to every ready path when hlsAlwaysRemux is on (and to any path
+// an HLS client asks for otherwise): a gohlslib muxer fed by protocols/hls.FromStream, configured like muxerInstance.
+// Units written by the publisher then run through the same muxing code as in the server; a panic there (in the
+// reader's goroutine) ends the process just as it ends mediamtx.
+func c35HLSConsumer(st *stream.Stream) func() {
+	hm := &gohlslib.Muxer{
+		Variant:            gohlslib.MuxerVariantLowLatency,
+		SegmentCount:       7,
+		SegmentMinDuration: time.Second,
+		PartMinDuration:    200 * time.Millisecond,
+		SegmentMaxSize:     50 * 1024 * 1024,
+		OnEncodeError:      func(error) {},
+	}
+	hr := &stream.Reader{SkipOutboundBytes: true, Parent: c35NilLog{}}
+	if err := hls.FromStream(st.OrigDesc, st.OutDescCopy(), hr, hm); err != nil {
+		return func() {}
+	}
+	if err := hm.Start(); err != nil {
+		return func() {}
+	}
+	st.AddReader(hr)
+	return func() {
+		st.RemoveReader(hr)
+		hm.Close()
 	}
 }
 
@@ -508,6 +543,7 @@ func TestVerifC35MoQSession(t *testing.T) {
 
 	rapid.Check(t, func(t *rapid.T) {
 		src := verifc35.NewSrc(t, "moq")
+		src.Avoid = kit.Known
 		su := c35DrawSetup(src)
 		sc := verifc35.GenMoQ(src, su.Transport == "quic")
 		js, _ := json.Marshal(struct {
@@ -538,6 +574,9 @@ func TestVerifC35MoQSession(t *testing.T) {
 			classes = append(classes, "invalid-path-name-reached-path-manager")
 		}
 		rec.Case(nontrivial, desc, classes...)
+		for _, k := range src.Excluded {
+			rec.Excluded(k)
+		}
 		if fail != "" {
 			t.Fatalf("C35 violated by a MoQ client script: %s\ninput: %s", fail, js)
 		}
